@@ -75,7 +75,7 @@ def cases(tier, seed):
                     # groups that exchange axes on NON-square images: g.x has other extents than x, the inner models are
                     # defined for any extents (their position weights are computed from the extents they are given)
                     axis_preserving = all(np.array_equal(np.abs(g), np.eye(d, dtype=int)) for g in grp)
-                    if not axis_preserving and sig in ("sv", "pseudo") and (d == 2 or inner in ("posweight", "typechange", "tanh")) and (tier == "thorough" or d == 2 or len(grp) <= 8):
+                    if not axis_preserving and sig in ("sv", "pseudo") and (d == 2 or inner in ("posweight", "typechange", "tanh")) and (d == 2 or len(grp) <= (16 if tier == "thorough" else 8)):
                         out.append({"kind": "ga", "d": d, "G": gname, "inner": inner, "sig": sig, "rect": True, "cost": max(1, len(grp) // 4), "grp": f"ga{d}"})
     types = [(0, 0), (0, 1), (1, 0)]
     for ext in ([4, 3], [3, 3], [5, 2], [2, 4]):
